@@ -10,8 +10,13 @@ use std::collections::{BTreeMap, BTreeSet};
 
 use trustfall_core::ir::FieldValue;
 
-use crate::engine::ir_sexp::{args_from_sexp, ir_to_sexp};
-use crate::engine::run::{Answer, execute, prepare};
+use std::rc::Rc;
+
+use crate::engine::adapter::{CallKind, CallSig, Event, Hooks, Info, LoggingAdapter};
+use crate::engine::ir_sexp::{args_from_sexp, ir_to_sexp, outputs_to_sexp};
+use crate::engine::query_gen::QueryKnobs;
+use crate::engine::run::{Answer, compile, execute, load_schema, prepare};
+use crate::engine::schema_gen::{EdgeDef, GenSchema};
 use crate::engine::worlds::{GenStats, World, WorldKnobs, gen_worlds};
 use tfharness::framework::*;
 use tfharness::rng::Rng;
@@ -169,6 +174,403 @@ impl Prop for C01 {
     }
 }
 
+// ------------------------------------------------------------------------------------------------
+// C13 — rows carry exactly the declared outputs, typed as declared
+
+/// `(outputs <schema> <query text hex> <ir>)` → `(outs (<name> <ty> <vid>)…)`
+fn eval_outputs(args: &[Sexp]) -> Option<String> {
+    let [schema, text, ir] = args else { return None };
+    let text = String::from_utf8(unhex(text.as_atom()?)?).ok()?;
+    let schema = load_schema(schema)?;
+    let q = match compile(&schema.real, &text) {
+        Err(names) => return Some(Answer::FrontendErr(names).render()),
+        Ok(q) => q,
+    };
+    if ir_to_sexp(&q.ir_query) != *ir {
+        return Some("(ir-mismatch)".to_string());
+    }
+    Some(outputs_to_sexp(&q).to_string())
+}
+
+/// The property on one executed request: every row has exactly the declared names, every value is valid
+/// for the declared type. Returns (clause key, detail) per violation.
+fn check_rows_typed(args: &[Sexp], answer: &str) -> Vec<(String, String)> {
+    let mut out = vec![];
+    let Some(rows) = Sexp::parse(answer) else { return out };
+    let Some(("rows", rows)) = rows.as_call() else { return out };
+    let Some(r) = parse_request(args) else { return out };
+    let Some(schema) = load_schema(r.schema) else { return out };
+    let Ok(q) = compile(&schema.real, &r.text) else { return out };
+    let declared: BTreeSet<&str> = q.outputs.keys().map(|k| k.as_ref()).collect();
+    for row in rows {
+        let Some(("row", cols)) = row.as_call() else { continue };
+        let mut names = BTreeSet::new();
+        for c in cols {
+            let Some([n, v]) = c.as_list() else { continue };
+            let (Some(n), Some(v)) = (n.as_atom(), tfharness::values::sexp_to_value(v)) else { continue };
+            names.insert(n);
+            match q.outputs.get(n) {
+                None => out.push(("undeclared-output".to_string(), format!("column {n} is not a declared output"))),
+                Some(o) => {
+                    if !o.value_type.is_valid_value(&v) {
+                        out.push((
+                            "output-value-not-of-declared-type".to_string(),
+                            format!("output {n}: value {} is not valid for declared type {}", tfharness::values::render_value(&v), o.value_type),
+                        ));
+                    }
+                }
+            }
+        }
+        if names != declared {
+            let missing: Vec<&&str> = declared.difference(&names).collect();
+            out.push(("row-keys-differ-from-declared-outputs".to_string(), format!("missing {missing:?}")));
+        }
+    }
+    out
+}
+
+#[derive(Default)]
+pub struct C13 {
+    stats: RefCell<GenStats>,
+    checked: RefCell<(usize, usize)>,
+}
+
+impl Prop for C13 {
+    fn id(&self) -> &'static str {
+        "C13"
+    }
+    fn rule(&self) -> &'static str {
+        "the worlds of C01 (same generator, same seed => same schemas, datasets, queries). Per accepted query one (outputs <schema> <query> <ir>) request (declared output names, types, vertices from IndexedQuery::outputs: model = the Lean get_output_type) and per dataset one (exec ...) request. Oracle on the implementation: every returned row has exactly the declared output names and every value satisfies Type::is_valid_value for its declared type. A case is non-trivial when the query has an output inside an optional scope, a fold or a nested fold, or a fold-count output (nt:<feature>), and for exec requests additionally returned at least one row."
+    }
+    fn generate(&self, tier: Tier, rng: &mut Rng) -> Vec<Case> {
+        let (worlds, stats) = generate_worlds(rng, &WorldKnobs::for_tier(tier));
+        *self.stats.borrow_mut() = stats;
+        let mut out = vec![];
+        for w in &worlds {
+            for q in w.accepted() {
+                let tags = feature_tags(&q.gq.features);
+                let Some(ir) = q.ir.clone() else { continue };
+                let text = Sexp::atom(tfharness::sexp::hex(q.gq.text.as_bytes()));
+                out.push(Case { request: Sexp::call("outputs", vec![w.schema_sexp.clone(), text, ir]), tags: tags.clone() });
+                for d in 0..w.datasets.len() {
+                    if let Some(exec) = w.exec_request(d, q) {
+                        out.push(Case { request: exec, tags: tags.clone() });
+                    }
+                }
+            }
+        }
+        out
+    }
+    fn eval(&self, request: &Sexp) -> Option<String> {
+        let (h, args) = request.as_call()?;
+        match h {
+            "outputs" => eval_outputs(args),
+            "exec" => eval_exec(h, args),
+            _ => None,
+        }
+    }
+    fn oracle(&self, evaluated: &[Evaluated]) -> Vec<OracleFailure> {
+        let mut fails = panic_failures(evaluated);
+        let (mut rows_checked, mut requests_checked) = (0usize, 0usize);
+        for e in evaluated {
+            let Some(("exec", args)) = e.request.as_call() else { continue };
+            if !e.answer.starts_with("(rows") {
+                continue;
+            }
+            requests_checked += 1;
+            rows_checked += e.answer.matches("(row ").count();
+            match guarded(|| check_rows_typed(args, &e.answer)) {
+                Ok(v) => {
+                    let mut seen = BTreeSet::new();
+                    for (key, detail) in v {
+                        if seen.insert(key.clone()) {
+                            let text = parse_request(args).map(|r| r.text).unwrap_or_default();
+                            fails.push(OracleFailure { key, detail: format!("{detail} | query: {text}"), requests: vec![e.line.clone()] });
+                        }
+                    }
+                }
+                Err(info) => fails.push(OracleFailure { key: format!("oracle-{}", panic_key(&info)), detail: info, requests: vec![e.line.clone()] }),
+            }
+        }
+        *self.checked.borrow_mut() = (requests_checked, rows_checked);
+        fails
+    }
+    fn post_tags(&self, e: &Evaluated) -> Vec<String> {
+        let is_exec = matches!(e.request.as_call(), Some(("exec", _)));
+        if is_exec && !e.answer.starts_with("(rows (row") {
+            return vec![];
+        }
+        ["opt", "output-in-fold", "output-in-nested-fold", "count-output", "fold-in-opt"]
+            .iter()
+            .filter(|f| e.tags.iter().any(|t| t == *f))
+            .map(|f| format!("nt:{f}"))
+            .collect()
+    }
+    fn extra_stats(&self, _evaluated: &[Evaluated]) -> serde_json::Value {
+        let (requests, rows) = *self.checked.borrow();
+        serde_json::json!({"generator": self.stats.borrow().to_json(), "exec_requests_checked": requests, "rows_checked": rows})
+    }
+}
+
+// ------------------------------------------------------------------------------------------------
+// C21 — adapters are only called with arguments the contract promises
+
+type Violations = Rc<RefCell<Vec<(String, String)>>>;
+
+fn sig_sexp(c: &CallSig) -> Sexp {
+    let a = |s: &str| Sexp::atom(s);
+    Sexp::call(
+        "sig",
+        vec![
+            a(c.kind.name()),
+            a(c.type_name.as_deref().unwrap_or("-")),
+            a(&c.name),
+            engine::params_sexp(c.params.iter().map(|(k, v)| (k.as_str(), v))),
+            a(c.coerce_to.as_deref().unwrap_or("-")),
+        ],
+    )
+}
+
+/// Clause-by-clause validation of one call against the schema.
+fn check_call(schema: &GenSchema, c: &CallSig, bad: &mut Vec<(String, String)>) {
+    let mut fail = |key: &str, detail: String| bad.push((key.to_string(), format!("{detail} in {}", sig_sexp(c))));
+    let check_params = |edge: &EdgeDef, fail: &mut dyn FnMut(&str, String)| {
+        let declared: BTreeSet<&str> = edge.params.iter().map(|p| p.name.as_str()).collect();
+        let given: BTreeSet<&str> = c.params.keys().map(|k| k.as_str()).collect();
+        if declared != given {
+            fail("parameter-names-differ-from-declared", format!("declared {declared:?}, given {given:?}"));
+        }
+        for p in &edge.params {
+            if let Some(v) = c.params.get(&p.name) {
+                if !p.ty.to_real().is_valid_value(v) {
+                    fail("parameter-value-not-of-declared-type", format!("{} = {v:?} for type {}", p.name, p.ty));
+                }
+            }
+        }
+    };
+    match c.kind {
+        CallKind::Start => match schema.root(&c.name) {
+            None => fail("starting-edge-not-on-root-type", c.name.clone()),
+            Some(e) => check_params(e, &mut fail),
+        },
+        _ => {
+            let tname = c.type_name.as_deref().unwrap_or("");
+            let Some(tdef) = schema.ty(tname) else {
+                fail("type-not-defined", tname.to_string());
+                return;
+            };
+            match c.kind {
+                CallKind::Property => {
+                    if c.name != "__typename" && !tdef.props.iter().any(|(p, _)| *p == c.name) {
+                        fail("property-not-defined-on-type", format!("{tname}.{}", c.name));
+                    }
+                }
+                CallKind::Neighbors => match schema.edge(tname, &c.name) {
+                    None => fail("edge-not-defined-on-type", format!("{tname}.{}", c.name)),
+                    Some(e) => check_params(e, &mut fail),
+                },
+                CallKind::Coercion => {
+                    let to = c.coerce_to.as_deref().unwrap_or("");
+                    if !tdef.is_iface {
+                        fail("coercion-from-non-interface", tname.to_string());
+                    }
+                    if schema.ty(to).is_none() {
+                        fail("coercion-target-not-defined", to.to_string());
+                    } else if to == tname || !schema.is_subtype(to, tname) {
+                        fail("coercion-target-not-a-strict-subtype", format!("{tname} -> {to}"));
+                    }
+                }
+                CallKind::Start => unreachable!(),
+            }
+        }
+    }
+}
+
+/// Run one `(calls …)` request under the contract-checking adapter.
+/// Returns (sorted distinct call signatures, violations) or the error answer.
+fn run_calls(args: &[Sexp]) -> Option<Result<(Vec<String>, Vec<(String, String)>), String>> {
+    let r = parse_request(args)?;
+    let p = prepare(r.schema, r.data, &r.text)?;
+    let q = match &p.query {
+        Err(names) => return Some(Err(Answer::FrontendErr(names.clone()).render())),
+        Ok(q) => q.clone(),
+    };
+    if ir_to_sexp(&q.ir_query) != *r.fourth {
+        return Some(Err("(ir-mismatch)".to_string()));
+    }
+    let violations: Violations = Rc::new(RefCell::new(vec![]));
+    let schema = p.schema.gen_schema.clone();
+    let inner = p.adapter();
+    let (v1, s1) = (violations.clone(), schema.clone());
+    let (v2, s2, types) = (violations.clone(), schema.clone(), inner.clone());
+    let hooks = Hooks {
+        on_call: Some(Box::new(move |c: &CallSig, _info: Info<'_>| check_call(&s1, c, &mut v1.borrow_mut()))),
+        on_context: Some(Box::new(move |c: &CallSig, active: Option<u32>| {
+            let (Some(v), Some(tname)) = (active, c.type_name.as_deref()) else { return };
+            match types.concrete_type(v) {
+                None => v2.borrow_mut().push(("active-vertex-unknown".into(), format!("vertex {v} in {}", sig_sexp(c)))),
+                Some(conc) => {
+                    if !s2.is_subtype(conc, tname) {
+                        v2.borrow_mut().push((
+                            "active-vertex-not-an-instance-of-named-type".into(),
+                            format!("vertex {v} of type {conc} in {}", sig_sexp(c)),
+                        ));
+                    }
+                }
+            }
+        })),
+    };
+    let adapter = LoggingAdapter::with_hooks(inner, hooks);
+    let log = adapter.log.clone();
+    let answer = execute(std::sync::Arc::new(adapter), q, &r.args);
+    if let Answer::ArgsErr(_) = answer {
+        return Some(Err(answer.render()));
+    }
+    let sigs: BTreeSet<String> = log
+        .borrow()
+        .iter()
+        .filter_map(|e| if let Event::Call(c) = e { Some(sig_sexp(c).to_string()) } else { None })
+        .collect();
+    let v = violations.borrow().clone();
+    Some(Ok((sigs.into_iter().collect(), v)))
+}
+
+#[derive(Default)]
+pub struct C21 {
+    stats: RefCell<GenStats>,
+    checked: RefCell<usize>,
+}
+
+impl Prop for C21 {
+    fn id(&self) -> &'static str {
+        "C21"
+    }
+    fn rule(&self) -> &'static str {
+        "the worlds of C01; per accepted (query, dataset) one (calls <schema> <data> <query> <ir> <args>) request answered with the sorted set of adapter call signatures (sig <kind> <type> <name> (params ...) <coerce_to|->) observed while all rows are pulled (model = calls of the Lean Interp). Oracle on the implementation: a contract-checking wrapper adapter validates every real call against the generated schema and the dataset's typing: type defined; property defined on it or __typename; edge defined on it; coercion only from an interface to a strict subtype; parameters = exactly the declared names with values valid for the declared types (explicit / default / null); every non-None active vertex pulled through a call is an instance of the named type. Non-trivial (nt:<feature>): the query has a recursion with implicit coercion or from a subtype, a coercion, a fold inside an optional scope, an imported tag, or an edge parameter."
+    }
+    fn generate(&self, tier: Tier, rng: &mut Rng) -> Vec<Case> {
+        let (worlds, stats) = generate_worlds(rng, &WorldKnobs::for_tier(tier));
+        *self.stats.borrow_mut() = stats;
+        let mut out = vec![];
+        for w in &worlds {
+            for q in w.accepted() {
+                let tags = feature_tags(&q.gq.features);
+                for d in 0..w.datasets.len() {
+                    if let Some(r) = w.request("calls", d, q) {
+                        out.push(Case { request: r, tags: tags.clone() });
+                    }
+                }
+            }
+        }
+        out
+    }
+    fn eval(&self, request: &Sexp) -> Option<String> {
+        let (h, args) = request.as_call()?;
+        match h {
+            "calls" => Some(match run_calls(args)? {
+                Ok((sigs, _)) => format!("(calls{})", sigs.iter().map(|s| format!(" {s}")).collect::<String>()),
+                Err(answer) => answer,
+            }),
+            _ => None,
+        }
+    }
+    fn oracle(&self, evaluated: &[Evaluated]) -> Vec<OracleFailure> {
+        let mut fails = panic_failures(evaluated);
+        let mut checked = 0usize;
+        for e in evaluated {
+            let Some(("calls", args)) = e.request.as_call() else { continue };
+            if e.panic_info.is_some() {
+                continue;
+            }
+            if let Ok(Some(Ok((_, violations)))) = guarded(|| run_calls(args)) {
+                checked += 1;
+                let mut seen = BTreeSet::new();
+                for (key, detail) in violations {
+                    if seen.insert(key.clone()) {
+                        let text = parse_request(args).map(|r| r.text).unwrap_or_default();
+                        fails.push(OracleFailure { key, detail: format!("{detail} | query: {text}"), requests: vec![e.line.clone()] });
+                    }
+                }
+            }
+        }
+        *self.checked.borrow_mut() = checked;
+        fails
+    }
+    fn post_tags(&self, e: &Evaluated) -> Vec<String> {
+        ["recurse-implicit-coercion", "recurse-4a", "coerce", "fold-in-opt", "tag-import", "param-explicit", "param-defaulted"]
+            .iter()
+            .filter(|f| e.tags.iter().any(|t| t == *f))
+            .map(|f| format!("nt:{f}"))
+            .collect()
+    }
+    fn extra_stats(&self, _evaluated: &[Evaluated]) -> serde_json::Value {
+        serde_json::json!({"generator": self.stats.borrow().to_json(), "requests_contract_checked": *self.checked.borrow()})
+    }
+}
+
+// ------------------------------------------------------------------------------------------------
+// C09 — executing an accepted query never panics
+
+#[derive(Default)]
+pub struct C09 {
+    stats: RefCell<GenStats>,
+}
+
+impl Prop for C09 {
+    fn id(&self) -> &'static str {
+        "C09"
+    }
+    fn rule(&self) -> &'static str {
+        "the world generator of C01 with the wide query settings (QueryKnobs::wide): invalid regex arguments (1/3 of regex variables), ordering operators on list-typed operands (1/3), the same tag imported several times into one fold, fold-count filters inside optional scopes, besides everything C01 generates. Every accepted (schema, dataset, query, args) is sent as (exec ...). Oracle: any panic of the implementation on an accepted query + accepted arguments is a failure keyed by its panic site. Non-trivial (nt:<trigger>): the query contains one of the known-defect triggers or a fold / optional / recursion / tag."
+    }
+    fn generate(&self, tier: Tier, rng: &mut Rng) -> Vec<Case> {
+        let mut knobs = WorldKnobs::for_tier(tier);
+        knobs.query = QueryKnobs::wide();
+        let (worlds, stats) = generate_worlds(rng, &knobs);
+        *self.stats.borrow_mut() = stats;
+        let mut out = vec![];
+        for w in &worlds {
+            for q in w.accepted() {
+                let tags = feature_tags(&q.gq.features);
+                for d in 0..w.datasets.len() {
+                    if let Some(r) = w.exec_request(d, q) {
+                        out.push(Case { request: r, tags: tags.clone() });
+                    }
+                }
+            }
+        }
+        out
+    }
+    fn eval(&self, request: &Sexp) -> Option<String> {
+        let (h, args) = request.as_call()?;
+        match h {
+            "exec" => eval_exec(h, args),
+            _ => None,
+        }
+    }
+    fn oracle(&self, evaluated: &[Evaluated]) -> Vec<OracleFailure> {
+        panic_failures(evaluated)
+    }
+    fn post_tags(&self, e: &Evaluated) -> Vec<String> {
+        let mut t: Vec<String> = ["invalid-regex", "list-ordering-used", "dup-import", "count-filter-in-opt", "fold", "opt", "recurse", "tag-import", "count-tag"]
+            .iter()
+            .filter(|f| e.tags.iter().any(|t| t == *f))
+            .map(|f| format!("nt:{f}"))
+            .collect();
+        t.push(if e.answer == "panic" { "answer:panic".into() } else if e.answer.starts_with("(rows") { "answer:rows".into() } else { "answer:other".into() });
+        t
+    }
+    fn extra_stats(&self, evaluated: &[Evaluated]) -> serde_json::Value {
+        let mut classes: BTreeMap<String, usize> = BTreeMap::new();
+        for e in evaluated {
+            if let Some(info) = &e.panic_info {
+                *classes.entry(panic_key(info)).or_default() += 1;
+            }
+        }
+        serde_json::json!({"generator": self.stats.borrow().to_json(), "panic_classes": classes})
+    }
+}
+
 fn main() {
-    main_for(vec![Box::new(C01::default())]);
+    main_for(vec![Box::new(C01::default()), Box::new(C13::default()), Box::new(C21::default()), Box::new(C09::default())]);
 }
